@@ -800,8 +800,13 @@ pub fn run_check(prop: &'static dyn Prop, tier: Tier, seed: u64) -> i32 {
                 notes.push(format!("known finding {} (owned by {}) no longer reproduces; its exclusion is off", k.id, k.property));
             }
         }
-        let mut w = WorkerHandle::new(prop.id(), &[], "known", prop.timeout_ms().min(10_000));
+        // reproducers of hangs get a short watchdog (the hang is the failure); every other reproducer gets the
+        // property's own watchdog: on a cold machine the first case of a worker can take many seconds (a rustc
+        // probe that has to read the crate's rlibs, the first compilation of a large script)
+        let mut w_short = WorkerHandle::new(prop.id(), &[], "known", prop.timeout_ms().min(10_000));
+        let mut w_long = WorkerHandle::new(prop.id(), &[], "known-long", prop.timeout_ms().max(60_000));
         for k in known.iter().filter(|k| k.property == prop.id()) {
+            let w = if k.sig_contains.iter().any(|s| s == "hang") { &mut w_short } else { &mut w_long };
             let Some(case) = &k.reproducer else {
                 if k.status == "known" {
                     // no reproducer: matcher-only entry, always active
